@@ -151,6 +151,10 @@ func (d *DHCPv6) SerializeTo(b gopacket.SerializeBuffer, opts gopacket.Serialize
 	if err != nil {
 		return err
 	}
+	// addresses, transaction id or option data shorter than their slot leave zero bytes
+	for i := range data {
+		data[i] = 0
+	}
 
 	offset := 0
 	data[0] = byte(d.MsgType)
